@@ -58,6 +58,9 @@ func (p *Program) runScan(sc *Scan) *UnitResult {
 	if sc.Kind == "extcalls" {
 		return p.scanExtCalls(sc, o, res, allowed)
 	}
+	if sc.Kind == "pkgglobals" {
+		return p.scanPkgGlobals(sc, o, res, allowed)
+	}
 	for key, fn := range p.fnByKey {
 		if fn.Pkg == nil || fn.Pkg.Pkg.Path() != sc.Pkg {
 			continue
@@ -93,6 +96,7 @@ func (p *Program) runScan(sc *Scan) *UnitResult {
 		}
 	}
 	sort.Strings(offenders)
+	offenders = dedupe(offenders)
 	if len(offenders) == 0 {
 		o.Status = "unsat"
 		o.Output = fmt.Sprintf("no writer of %s outside {%s}", sc.Target, strings.Join(sc.Allowed, ", "))
@@ -115,7 +119,7 @@ func writesTarget(addr ssa.Value, sc *Scan) bool {
 			case *ssa.FieldAddr:
 				st := a.X.Type().Underlying().(*types.Pointer).Elem()
 				if named, ok := st.(*types.Named); ok && named.Obj().Name() == parts[0] {
-					if st.Underlying().(*types.Struct).Field(a.Field).Name() == parts[1] {
+					if parts[1] == "*" || st.Underlying().(*types.Struct).Field(a.Field).Name() == parts[1] {
 						return true
 					}
 				}
@@ -278,4 +282,94 @@ func (p *Program) scanExtCalls(sc *Scan, o *Obl, res *UnitResult, allowed map[st
 		o.Output = "references outside the listed functions: " + strings.Join(offenders, "; ")
 	}
 	return res
+}
+
+// scanPkgGlobals: inventory of mutable package-level state. Every (global, function) pair such that the
+// function - not a package initialiser - stores to the package-level variable or through it (element, field,
+// map entry) must be listed as "global<-function". Writes through a pointer loaded from a global into another
+// heap object are not followed (they are the business of that object's own discipline).
+func (p *Program) scanPkgGlobals(sc *Scan, o *Obl, res *UnitResult, allowed map[string]bool) *UnitResult {
+	found := map[string]bool{}
+	for key, fn := range p.fnByKey {
+		if fn.Pkg == nil || fn.Pkg.Pkg.Path() != sc.Target {
+			continue
+		}
+		if fn.Name() == "init" || strings.HasPrefix(fn.Name(), "init#") {
+			continue
+		}
+		name := strings.TrimPrefix(shortKey(key), fn.Pkg.Pkg.Name()+".")
+		var walk func(f *ssa.Function)
+		walk = func(f *ssa.Function) {
+			for _, b := range f.Blocks {
+				for _, in := range b.Instrs {
+					var addr ssa.Value
+					switch x := in.(type) {
+					case *ssa.Store:
+						addr = x.Addr
+					case *ssa.MapUpdate:
+						addr = x.Map
+					case *ssa.Call:
+						if bi, ok := x.Call.Value.(*ssa.Builtin); ok && (bi.Name() == "delete" || bi.Name() == "clear") && len(x.Call.Args) > 0 {
+							addr = x.Call.Args[0]
+						}
+					}
+					for addr != nil {
+						switch a := addr.(type) {
+						case *ssa.Global:
+							if a.Pkg == fn.Pkg {
+								found[a.Name()+"<-"+name] = true
+							}
+							addr = nil
+						case *ssa.FieldAddr:
+							addr = a.X
+						case *ssa.IndexAddr:
+							addr = a.X
+						case *ssa.UnOp:
+							addr = a.X
+						default:
+							addr = nil
+						}
+					}
+				}
+			}
+			for _, a := range f.AnonFuncs {
+				walk(a)
+			}
+		}
+		walk(fn)
+	}
+	var offenders, stale []string
+	for k := range found {
+		if !allowed[k] {
+			offenders = append(offenders, k)
+		}
+	}
+	for a := range allowed {
+		if !found[a] {
+			stale = append(stale, a)
+		}
+	}
+	sort.Strings(offenders)
+	sort.Strings(stale)
+	if len(offenders) == 0 {
+		o.Status = "unsat"
+		o.Output = fmt.Sprintf("%d (global<-writer) pairs outside initialisers in %s, all listed", len(found), sc.Target)
+		if len(stale) > 0 {
+			o.Output += "; listed but not found: " + strings.Join(stale, ", ")
+		}
+	} else {
+		o.Status = "sat"
+		o.Output = "package-level state written outside initialisers without a recorded discipline: " + strings.Join(offenders, ", ")
+	}
+	return res
+}
+
+func dedupe(xs []string) []string {
+	var out []string
+	for i, x := range xs {
+		if i == 0 || x != xs[i-1] {
+			out = append(out, x)
+		}
+	}
+	return out
 }
